@@ -225,13 +225,19 @@ def check_c02(pid, tier, seed, replay=None):
         scns.append(scn_from_hist(rng, i, hs, h, l, na.get(l, 10)))
     resolve_rel(scns, gps)
     scns += fam_lifecycle(rng, 300 if q else 20000, links, na) + fam_hdrbits(rng, 400 if q else 30000, [0, 1, 2, 4])
+    # synthetic set-ups written by TLC from Setup.tla: well-formed shapes and one-field boundary mutations, decoded with silent and pseudo-random packets
+    import checks.syn as SY
+    cases, gstats, gproblems = SY.gen_cases(('shapes', 'mutations'))
+    for rep in range(2 if q else 30): scns += [s for s in SY.build_scenarios(random.Random(seed * 100 + rep), cases, 8 if q else 24)]
+    for j, s in enumerate(scns): s.name = s.name if not s.name.startswith(('shapes-', 'mutations-')) else f'{s.name}-r{j}'
+    problems = problems + gproblems
     res = run_batch(pid, scns, bindir, 'pdh', *TRACE, prelude=prelude(links))
     res['infra'] += pr['infra']
     if any(k == 'infra' for k, _, _ in problems): res['infra'].append('TLC failed on a design-level run')
     def nontrivial(s, evs): return len(evs) >= 8
     nrej = sum(1 for s in scns for e in res['scn_events'].get(s.name, []) if e.get('e') in ('HeaderIn', 'Synthesis', 'SynthInit') and (e.get('ret', 0) != 0 or e.get('rs', 0) != 0))
     return finish(pid, tier, seed, 'exploration', scns, res, C02_RULES, t0,
-                  'scenarios = TLC-simulated adversarial histories of PktDec_MC (packet order with gaps, granule positions absent/exact/short/backdated/zero/future, end-of-stream flags, track-only blocks, partial reads, restarts) concretised on real streams + random call orders over the whole packet API alphabet (headers in any order and multiplicity, audio as header, header as audio, truncated and empty packets, init before/after headers, half-rate toggles, lapout, blockin twice, clears in pieces) + header packets with bit flips / truncations / zeroed tails followed by init and decode; run under ASan+UBSan with CPU budget and exit trap; non-trivial = at least 8 recorded calls; distinct by script hash',
+                  'scenarios = TLC-simulated adversarial histories of PktDec_MC (packet order with gaps, granule positions absent/exact/short/backdated/zero/future, end-of-stream flags, track-only blocks, partial reads, restarts) concretised on real streams + random call orders over the whole packet API alphabet (headers in any order and multiplicity, audio as header, header as audio, truncated and empty packets, init before/after headers, half-rate toggles, lapout, blockin twice, clears in pieces) + header packets with bit flips / truncations / zeroed tails followed by init and decode + synthetic set-ups written by TLC from Setup.tla (well-formed shapes and one-field boundary mutations of every part of the setup header) decoded with silent and pseudo-random packets; run under ASan+UBSan with CPU budget and exit trap; non-trivial = at least 8 recorded calls; distinct by script hash',
                   nontrivial, ['structured packets and mutations of encoder-made packets, not arbitrary byte strings; the field-boundary sweep of synthetic headers is in the C01 check',
                                'caller contract: objects initialised before use, dsp/block calls only after a successful synthesis_init'],
                   CHECKER, extra_cov=dict(design_model=mc, tla_histories=len(hists), rejections_observed=nrej), extra_viol=extra_viol,
